@@ -152,8 +152,8 @@ PROPS = {
     ),
     "C20": dict(
         modules=["Fosite.Props.C20"],
-        drivers=[dict(name="render", kind="pure")],
-        rule="D4 pure driver 'render': every sentinel of errors.go x {WriteAccessError, WritePushedAuthorizeError, WriteIntrospectionError, WriteRevocationResponse, WriteAuthorizeError in 6 placements (invalid redirect->JSON, query, fragment, form_post, default, unknown mode), MarshalJSON, ToValues, GetDescription} x legacy/new format x debug exposure on/off x hint/debug texts with quotes, control characters, <script>, &, %, NUL, invalid UTF-8, U+2028; hint x debug cross product; custom errors, plain Go errors, WithStack / %w / WithWrap chains, by-value errors, nil; errors.Is routing of introspection/revocation for every sentinel pair; success writers (access, authorize in all modes with hostile parameter names/values and responder headers colliding with Cache-Control/Pragma/Content-Type, introspection, PAR, device). Executed against compose.ComposeAllEnabled with the two Config switches into httptest.ResponseRecorder; the response is read back with encoding/json, a hand splitter + url.QueryUnescape, and golang.org/x/net/html (any injected element or attribute makes the body 'raw'); compared: status, all headers, body kind, redirect target, every decoded field; LEAK flag if a debug text occurs raw or decoded while exposure is off. Non-trivial = error op whose chain carries non-empty internal text, or success op that wrote a body/redirect; distinct = distinct op lines",
+        drivers=[dict(name="render", kind="pure"), dict(name="hist", kind="hist")],
+        rule=HIST_RULE + " — storage half: every key and every stored form value the library hands to the storage layer during an operation is compared with every secret the harness used in that history (client secrets, code verifiers, complete codes and tokens). D4 pure driver 'render': every sentinel of errors.go x {WriteAccessError, WritePushedAuthorizeError, WriteIntrospectionError, WriteRevocationResponse, WriteAuthorizeError in 6 placements (invalid redirect->JSON, query, fragment, form_post, default, unknown mode), MarshalJSON, ToValues, GetDescription} x legacy/new format x debug exposure on/off x hint/debug texts with quotes, control characters, <script>, &, %, NUL, invalid UTF-8, U+2028; hint x debug cross product; custom errors, plain Go errors, WithStack / %w / WithWrap chains, by-value errors, nil; errors.Is routing of introspection/revocation for every sentinel pair; success writers (access, authorize in all modes with hostile parameter names/values and responder headers colliding with Cache-Control/Pragma/Content-Type, introspection, PAR, device). Executed against compose.ComposeAllEnabled with the two Config switches into httptest.ResponseRecorder; the response is read back with encoding/json, a hand splitter + url.QueryUnescape, and golang.org/x/net/html (any injected element or attribute makes the body 'raw'); compared: status, all headers, body kind, redirect target, every decoded field; LEAK flag if a debug text occurs raw or decoded while exposure is off. Non-trivial = error op whose chain carries non-empty internal text, or success op that wrote a body/redirect; distinct = distinct op lines",
         assumptions=["JSON, URL-query and html/template escaping are library parameters: the model yields the data handed to them and the harness recovers it with independent parsers",
                      "default nil MessageCatalog (i18n not modelled); default empty ResponseModeHandler; IsRedirectURIValid is an input bit (C11's model), cross-checked in the observation"],
         partial=["storage half of C20 (nothing handed to storage is a usable secret) is checked by the taint scan of the history driver's storage-call log (not yet a Lean theorem)",
@@ -232,7 +232,9 @@ def run_hist(R, pid, d, work, seed, tier, replay_file=None):
         return res
     model = os.path.join(wd, "model.out")
     okm, errm = R.run_driver("hist-model", ops, model)
-    lo, li, lm = R.read_lines(ops), R.read_lines(obs), R.read_lines(model)
+    lo, li_full, lm = R.read_lines(ops), R.read_lines(obs), R.read_lines(model)
+    # the 4th segment (storage taint scan) is monitor input only, not part of the correspondence
+    li = [x.split(" || taint=")[0] for x in li_full]
     res["evaluations"] = len(lo)
     hs = split_histories(lo)
     res["traces"] = len(hs)
@@ -281,7 +283,7 @@ def run_hist(R, pid, d, work, seed, tier, replay_file=None):
             seen.add(sig)
             a = max(s for s, _ in hs if s <= idx)
             hops = lo[a + 1: idx + 1]
-            if replay_file is None:
+            if replay_file is None and not R.is_known(pid, sig, R.load_known()):
                 hops = shrink_history(R, pid, d, os.path.join(wd, "shrink"), hops, sig)
             _, hobs = hist_replay_hits(R, pid, d, os.path.join(wd, "shrink"), hops, sig)
             res["monitor_hits"].append({"signature": sig, "driver": d["name"], "ops": hops,
